@@ -945,6 +945,9 @@ func digest(args []string) {
 			fmt.Fprintf(saved, "%d %s\n", i, d)
 			continue
 		}
+		if d := os.Getenv("VERIF_DIGEST_EVENTS"); d != "" {
+			os.WriteFile(filepath.Join(d, fmt.Sprintf("run-%d-pid%d.txt", i, os.Getpid())), []byte(strings.Join(t.Events, "\n")+"\n"+fmt.Sprint(t.Trace)), 0o644)
+		}
 		parts := []string{fmt.Sprint(t.Trace), strings.Join(t.Events, "\n")}
 		if v != nil {
 			parts = append(parts, v.Signature)
